@@ -7,6 +7,16 @@ HOOK_COMMITS = ["e39f3f7"]
 
 # id -> (category, technique, text, note, design_ref)
 CHECKS = {
+ "C15": ("fault_enumeration",
+         "runtime monitoring: wire tracer enumerates every atom of every serializable type; decode-time invariant table checked by substitution; behavioural twin checks of decoded keys/parameters",
+         "Every serializable type of both crates (all tuple lengths of the tier, the five customer stages from a real session) is round-tripped; every atom of every honest encoding is replaced in turn by each encoding its position forbids (off-curve, out-of-subgroup, flag patterns, scalar >= q everywhere; identity / zero / close tag / unmatched lock, secret, index / balance >= 2^63 by position) and the decoder must refuse, while valid alternatives must still round trip. Decoded keys, parameters and merchant parts are used against the originals. Exhaustive over atoms x table for one instance per type; the layout is observed from the Serialize impls, not hard-coded.",
+         "Trusts the tracer (self-checked against bincode::serialize on every value), bls12_381's own point/scalar decoding for classifying encodings, and the position table in c15.rs.",
+         "DESIGN.md §4 C15"),
+ "C16": ("fault_enumeration",
+         "runtime monitoring: panic hook + tracking allocator + process supervisor over structure-aware decoder inputs (thorough: also Miri / ASan / valgrind memcheck on the corpus)",
+         "Every Deserialize type of both crates and wrappers around the public element codecs are fed every length-prefix mutation (0, n-1, n+1 with and without valid extra elements, 2n, 2^24, 2^32, 2^40 with 64 elements, 2^60, 2^64-1), every atom replaced by invalid / boundary encodings, truncation at and inside every atom, extensions, random strings, random tails and bit flips. One input = one supervised case: panics are recorded by the hook, allocations by a tracking allocator (largest single request <= 16*len+64KiB, peak <= 32*len+256KiB), and a worker death (abort) is attributed to the open case by the supervisor.",
+         "Allocation bounds are the harness's reading of 'out of proportion' (honest decodes stay below 2.1x input length). Sanitizer layers cover only what Miri/ASan/memcheck can execute in the time budget (see DESIGN.md I8).",
+         "DESIGN.md §4 C16"),
  "C17": ("exploration",
          "runtime monitoring: i128 reference ledger over boundary-lattice and random inputs, overflow checks on, panics observed per call",
          "The real constructors, balance addition, payment application (through Ready states decoded from crafted bytes), the merchant's handling of wire-decoded amounts and full honest boundary payments are executed on every triple of the 64-bit boundary lattice plus seeded random triples; each result is compared with 128-bit arithmetic and every panic is recorded. Exhaustive on the lattice, sampled elsewhere.",
